@@ -395,3 +395,319 @@ Proof.
 Qed.
 
 End CaseInvariance.
+
+(* ------------------------------------------------------------------------------------------ *)
+(* [ci_closed] is decidable whenever the non-trivial part of [sim] is a finite list of pairs   *)
+(* (the simple upper/lower pairs): a boolean checker, sound and complete.                      *)
+Section CaseCheck.
+
+Variable sim : Z -> Z -> Prop.
+Variable pairs : list (Z * Z).
+Hypothesis sim_sym : forall x y, sim x y -> sim y x.
+Hypothesis pairs_sim : forall x y, In (x, y) pairs -> sim x y.
+Hypothesis sim_pairs : forall x y, sim x y -> x = y \/ In (x, y) pairs \/ In (y, x) pairs.
+
+Definition caselessb (c : Z) : bool :=
+  forallb (fun p => (negb (fst p =? c) && negb (snd p =? c)) || (fst p =? snd p)) pairs.
+Definition resp_bb (f : Z -> bool) : bool :=
+  forallb (fun p => Bool.eqb (f (fst p)) (f (snd p))) pairs.
+Definition resp_zb (f : Z -> Z) : bool :=
+  forallb (fun p => f (fst p) =? f (snd p)) pairs.
+
+Lemma caselessb_iff c : caselessb c = true <-> caseless sim c.
+Proof.
+  unfold caselessb, caseless. rewrite forallb_forall. split.
+  - intros H x Hs. destruct (sim_pairs _ _ Hs) as [Heq|[Hin|Hin]]; [exact Heq| |];
+      specialize (H _ Hin); cbn [fst snd] in H; lia.
+  - intros H [x y] Hin. cbn [fst snd].
+    pose proof (pairs_sim _ _ Hin) as Hs.
+    destruct (Z.eqb_spec y c) as [->|Hy].
+    + rewrite (H _ Hs). lia.
+    + destruct (Z.eqb_spec x c) as [->|Hx]; [|reflexivity].
+      rewrite (H _ (sim_sym _ _ Hs)). lia.
+Qed.
+
+Lemma resp_bb_iff f : resp_bb f = true <-> resp_b sim f.
+Proof.
+  unfold resp_bb, resp_b. rewrite forallb_forall. split.
+  - intros H x y Hs. destruct (sim_pairs _ _ Hs) as [->|[Hin|Hin]]; [reflexivity| |];
+      specialize (H _ Hin); cbn [fst snd] in H; apply eqb_prop in H; congruence.
+  - intros H [x y] Hin. cbn [fst snd]. rewrite (H _ _ (pairs_sim _ _ Hin)). apply eqb_reflx.
+Qed.
+
+Lemma resp_zb_iff f : resp_zb f = true <-> resp_z sim f.
+Proof.
+  unfold resp_zb, resp_z. rewrite forallb_forall. split.
+  - intros H x y Hs. destruct (sim_pairs _ _ Hs) as [->|[Hin|Hin]]; [reflexivity| |];
+      specialize (H _ Hin); cbn [fst snd] in H; lia.
+  - intros H [x y] Hin. cbn [fst snd]. rewrite (H _ _ (pairs_sim _ _ Hin)). apply Z.eqb_refl.
+Qed.
+
+Variable e : env.
+
+Definition ci_leafb (k : ckind) (c : Z) : bool :=
+  match k with COne | CNotone => caselessb c | CSet => resp_bb (set_in e c) end.
+
+Definition ci_anchorb (a : anchor) : bool :=
+  match a with
+  | ABol | AEol | AEndZ => caselessb 10
+  | ABoundary | ANonboundary => resp_bb (is_word e)
+  | AECMABoundary | ANonECMABoundary => resp_bb (is_eword e)
+  | ABeginning | AStart | AEnd => true
+  end.
+
+Fixpoint ci_closedb (t : node) : bool :=
+  match t with
+  | NChar k _ c => ci_leafb k c
+  | NCharLoop k _ _ c _ _ => ci_leafb k c
+  | NMulti o str => if is_ci o then resp_zb (lower e) else forallb caselessb str
+  | NRef o _ => is_ci o && resp_zb (lower e)
+  | NAnchor a => ci_anchorb a
+  | NNothing | NEmpty | NBump => true
+  | NConcat _ l | NAlternate _ l =>
+      (fix all (l : list node) : bool :=
+         match l with [] => true | x :: l' => ci_closedb x && all l' end) l
+  | NLoop _ _ _ _ r | NCapture _ _ _ r | NGroup r | NPosLook _ r | NNegLook _ r | NAtomic r =>
+      ci_closedb r
+  | NBackRefCond _ _ yes no =>
+      ci_closedb yes && match no with Some n => ci_closedb n | None => true end
+  | NExprCond _ c yes no =>
+      ci_closedb c && ci_closedb yes && match no with Some n => ci_closedb n | None => true end
+  end.
+
+Lemma ci_leafb_iff k c : ci_leafb k c = true <-> ci_leaf sim e k c.
+Proof. destruct k; cbn [ci_leafb ci_leaf]; first [apply caselessb_iff | apply resp_bb_iff]. Qed.
+
+Lemma ci_anchorb_iff a : ci_anchorb a = true <-> ci_anchor sim e a.
+Proof.
+  destruct a; cbn [ci_anchorb ci_anchor];
+    first [apply caselessb_iff | apply resp_bb_iff | split; auto].
+Qed.
+
+Lemma ci_closedb_iff : forall t, ci_closedb t = true <-> ci_closed sim e t.
+Proof.
+  fix IH 1. intros t.
+  destruct t; cbn [ci_closedb ci_closed].
+  - apply ci_leafb_iff.
+  - apply ci_leafb_iff.
+  - destruct (is_ci o); [apply resp_zb_iff|].
+    rewrite forallb_forall, Forall_forall. split; intros H x Hx; apply caselessb_iff, H, Hx.
+  - rewrite andb_true_iff, resp_zb_iff. reflexivity.
+  - apply ci_anchorb_iff.
+  - split; auto.
+  - split; auto.
+  - split; auto.
+  - induction l as [|x l IHl]; [split; auto|].
+    rewrite andb_true_iff, (IH x), IHl. reflexivity.
+  - induction l as [|x l IHl]; [split; auto|].
+    rewrite andb_true_iff, (IH x), IHl. reflexivity.
+  - apply IH.
+  - apply IH.
+  - apply IH.
+  - apply IH.
+  - apply IH.
+  - apply IH.
+  - rewrite andb_true_iff, (IH t). destruct no as [n|]; [rewrite (IH n)|]; intuition.
+  - rewrite !andb_true_iff, (IH t1), (IH t2).
+    destruct no as [n|]; [rewrite (IH n)|]; intuition.
+Qed.
+
+Corollary ci_closed_dec t : {ci_closed sim e t} + {~ ci_closed sim e t}.
+Proof.
+  destruct (ci_closedb t) eqn:E.
+  - left. apply ci_closedb_iff, E.
+  - right. intros H. apply ci_closedb_iff in H. congruence.
+Qed.
+
+End CaseCheck.
+
+(* ------------------------------------------------------------------------------------------ *)
+(* A concrete instance: ASCII letters, and the two trees syntax.Parse builds (tree.Dump()) for
+     (?i)(a)[b-c]+12\1$         Capture0(Concat(Capture1(Set[Aa]) SetloopAtomic[BCbc]{1,inf} Multi"12" Ref-I(1) EndZ))
+     (?i)xy[^b-c][a-z-[m]]\b    Capture0(Concat(Set[Xx] Set[Yy] Set[^BCbc] Set[A-Za-zſK-[Mm]] Boundary))   *)
+
+Definition ascii_sim (x y : Z) : Prop :=
+  x = y \/ (97 <= x <= 122 /\ y = x - 32) \/ (65 <= x <= 90 /\ y = x + 32).
+
+Lemma ascii_sim_refl x : ascii_sim x x.
+Proof. left. reflexivity. Qed.
+Lemma ascii_sim_sym x y : ascii_sim x y -> ascii_sim y x.
+Proof. unfold ascii_sim. lia. Qed.
+Lemma ascii_sim_trans x y z : ascii_sim x y -> ascii_sim y z -> ascii_sim x z.
+Proof. unfold ascii_sim. lia. Qed.
+
+(* the non-trivial pairs (lower, upper) *)
+Definition ascii_pairs : list (Z * Z) :=
+  map (fun i => (97 + Z.of_nat i, 65 + Z.of_nat i)) (seq 0 26).
+
+Lemma ascii_pairs_sim x y : In (x, y) ascii_pairs -> ascii_sim x y.
+Proof.
+  unfold ascii_pairs. rewrite in_map_iff. intros [i [Hi Hin]]. apply in_seq in Hin.
+  assert (x = 97 + Z.of_nat i /\ y = 65 + Z.of_nat i) as [-> ->] by (split; congruence).
+  unfold ascii_sim. lia.
+Qed.
+
+Lemma ascii_sim_pairs x y :
+  ascii_sim x y -> x = y \/ In (x, y) ascii_pairs \/ In (y, x) ascii_pairs.
+Proof.
+  intros [H|[[H1 H2]|[H1 H2]]]; [left; exact H | right; left | right; right];
+    unfold ascii_pairs; apply in_map_iff.
+  - exists (Z.to_nat (x - 97)). split; [f_equal; lia | apply in_seq; lia].
+  - exists (Z.to_nat (x - 65)). split; [f_equal; lia | apply in_seq; lia].
+Qed.
+
+Definition ascii_lower (x : Z) : Z := if (65 <=? x) && (x <=? 90) then x + 32 else x.
+Definition ascii_word (x : Z) : bool :=
+  ((48 <=? x) && (x <=? 57)) || ((65 <=? x) && (x <=? 90)) || ((97 <=? x) && (x <=? 122)) || (x =? 95).
+
+Definition in_rng (a b x : Z) : bool := (a <=? x) && (x <=? b).
+
+(* set ids: 0 [Aa]  1 [BCbc]  2 [Xx]  3 [Yy]  4 [^BCbc]  5 [A-Za-zſK-[Mm]]  6 [a-z-[m]] NOT closed *)
+Definition ex_set_in (sid x : Z) : bool :=
+  if sid =? 0 then (x =? 65) || (x =? 97)
+  else if sid =? 1 then in_rng 66 67 x || in_rng 98 99 x
+  else if sid =? 2 then (x =? 88) || (x =? 120)
+  else if sid =? 3 then (x =? 89) || (x =? 121)
+  else if sid =? 4 then negb (in_rng 66 67 x || in_rng 98 99 x)
+  else if sid =? 5 then (in_rng 65 90 x || in_rng 97 122 x || (x =? 383) || (x =? 8490))
+                        && negb ((x =? 77) || (x =? 109))
+  else if sid =? 6 then in_rng 97 122 x && negb (x =? 109)
+  else false.
+
+Definition ex_env (text : list Z) : env :=
+  {| txt := text; tstart := 0; ecma := false; endz_strict := false;
+     set_in := ex_set_in; lower := ascii_lower; is_word := ascii_word; is_eword := ascii_word |}.
+
+Definition ex_tree1 : node :=
+  NCapture 0 0 (-1) (NConcat 1 [NCapture 1 1 (-1) (NChar CSet 1 0);
+                                NCharLoop CSet LAtomic 1 1 1 INF;
+                                NMulti 0 [49; 50];
+                                NRef 1 1;
+                                NAnchor AEndZ]).
+Definition ex_tree2 : node :=
+  NCapture 0 0 (-1) (NConcat 1 [NChar CSet 1 2; NChar CSet 1 3; NChar CSet 1 4; NChar CSet 1 5;
+                                NAnchor ABoundary]).
+
+(* any two ex_env texts of equal length that are pointwise ascii_sim satisfy the section hypotheses *)
+Lemma ex_find_invariant (t : node) (w w' : list Z) :
+  length w' = length w ->
+  (forall i, 0 <= i < zlen w -> ascii_sim (nth (Z.to_nat i) w 0) (nth (Z.to_nat i) w' 0)) ->
+  ci_closedb ascii_pairs (ex_env w) t = true ->
+  forall fuel rtl start prevlen,
+    find (ex_env w') fuel t rtl start prevlen = find (ex_env w) fuel t rtl start prevlen.
+Proof.
+  intros Hlen Hsim Hb fuel rtl start prevlen.
+  apply (ci_find_invariant ascii_sim ascii_sim_refl ascii_sim_sym (ex_env w) (ex_env w'));
+    try reflexivity; try assumption.
+  apply (ci_closedb_iff ascii_sim ascii_pairs ascii_sim_sym ascii_pairs_sim ascii_sim_pairs), Hb.
+Qed.
+
+(* ------------------------------------------------------------------------------------------ *)
+(* Closed statements (all section hypotheses packed into one predicate)                        *)
+
+(* e' is e with another text of the same length whose runes are pointwise [sim] *)
+Definition case_variant (sim : Z -> Z -> Prop) (e e' : env) : Prop :=
+  tstart e' = tstart e /\ ecma e' = ecma e /\ endz_strict e' = endz_strict e /\
+  (forall sid x, set_in e' sid x = set_in e sid x) /\ (forall x, lower e' x = lower e x) /\
+  (forall x, is_word e' x = is_word e x) /\ (forall x, is_eword e' x = is_eword e x) /\
+  length (txt e') = length (txt e) /\
+  (forall i, 0 <= i < tlen e -> sim (char_at e i) (char_at e' i)).
+
+Definition sim_ok (sim : Z -> Z -> Prop) : Prop :=
+  (forall x, sim x x) /\ (forall x y, sim x y -> sim y x).
+
+Lemma case_sem_invariant sim e e' : sim_ok sim -> case_variant sim e e' ->
+  forall t, ci_closed sim e t -> forall fuel s, sem e' fuel t s = sem e fuel t s.
+Proof.
+  intros [Hr Hs] (H1 & H2 & H3 & H4 & H5 & H6 & H7 & H8 & H9) t Hc fuel s.
+  apply (ci_input_invariant sim Hr Hs e e' H1 H2 H3 H4 H5 H6 H7 H8 H9 fuel t s Hc).
+Qed.
+
+Lemma case_find_invariant sim e e' : sim_ok sim -> case_variant sim e e' ->
+  forall root, ci_closed sim e root ->
+  forall fuel rtl start prevlen,
+    find e' fuel root rtl start prevlen = find e fuel root rtl start prevlen
+    /\ findk e' fuel root rtl start prevlen = findk e fuel root rtl start prevlen
+    /\ (forall p, attempt e' fuel root p = attempt e fuel root p).
+Proof.
+  intros [Hr Hs] (H1 & H2 & H3 & H4 & H5 & H6 & H7 & H8 & H9) root Hc fuel rtl start prevlen.
+  split; [|split].
+  - apply (ci_find_invariant sim Hr Hs e e' H1 H2 H3 H4 H5 H6 H7 H8 H9 fuel root rtl start prevlen Hc).
+  - apply (ci_findk_invariant sim Hr Hs e e' H1 H2 H3 H4 H5 H6 H7 H8 H9 fuel root rtl start prevlen Hc).
+  - intros p. apply (ci_attempt_invariant sim Hr Hs e e' H1 H2 H3 H4 H5 H6 H7 H8 H9 fuel root p Hc).
+Qed.
+
+(* the relation is symmetric, so is the hypothesis: ci_closed transports along a case variant *)
+Lemma case_variant_closed sim e e' : case_variant sim e e' ->
+  forall t, ci_closed sim e t -> ci_closed sim e' t.
+Proof.
+  intros (_ & _ & _ & H4 & H5 & H6 & H7 & _ & _).
+  assert (Hleaf : forall k c, ci_leaf sim e k c -> ci_leaf sim e' k c).
+  { intros [| |] c H; cbn [ci_leaf] in *; try exact H.
+    intros x y Hxy. rewrite !H4. apply H, Hxy. }
+  assert (Hlow : resp_z sim (lower e) -> resp_z sim (lower e')).
+  { intros H x y Hxy. rewrite !H5. apply H, Hxy. }
+  fix IH 1. intros t. destruct t; cbn [ci_closed].
+  - apply Hleaf.
+  - apply Hleaf.
+  - destruct (is_ci o); [apply Hlow | exact (fun H => H)].
+  - intros [Ha Hb]. split; [exact Ha | apply Hlow, Hb].
+  - destruct a; cbn [ci_anchor]; try exact (fun H => H);
+      intros H x y Hxy; rewrite ?H6, ?H7; apply H, Hxy.
+  - exact (fun H => H).
+  - exact (fun H => H).
+  - exact (fun H => H).
+  - induction l as [|x l IHl]; [exact (fun H => H)|].
+    intros [Hx Hl]. split; [apply IH, Hx | apply IHl, Hl].
+  - induction l as [|x l IHl]; [exact (fun H => H)|].
+    intros [Hx Hl]. split; [apply IH, Hx | apply IHl, Hl].
+  - apply IH.
+  - apply IH.
+  - apply IH.
+  - apply IH.
+  - apply IH.
+  - apply IH.
+  - intros [Hy Hn]. split; [apply IH, Hy|]. destruct no; [apply IH, Hn | exact I].
+  - intros [Hc [Hy Hn]]. split; [apply IH, Hc|]. split; [apply IH, Hy|].
+    destruct no; [apply IH, Hn | exact I].
+Qed.
+
+Lemma ex_case_variant (w w' : list Z) :
+  length w' = length w ->
+  (forall i, 0 <= i < zlen w -> ascii_sim (nth (Z.to_nat i) w 0) (nth (Z.to_nat i) w' 0)) ->
+  case_variant ascii_sim (ex_env w) (ex_env w').
+Proof. intros Hl Hs. unfold case_variant. cbn. repeat split; auto. Qed.
+
+(* pointwise check of two concrete texts *)
+Fixpoint ascii_simb_list (w w' : list Z) : bool :=
+  match w, w' with
+  | [], [] => true
+  | x :: w1, y :: w1' =>
+      ((x =? y) || (in_rng 97 122 x && (y =? x - 32)) || (in_rng 65 90 x && (y =? x + 32)))
+      && ascii_simb_list w1 w1'
+  | _, _ => false
+  end.
+
+Lemma ascii_simb_list_ok : forall w w', ascii_simb_list w w' = true ->
+  length w' = length w /\
+  (forall i, 0 <= i < zlen w -> ascii_sim (nth (Z.to_nat i) w 0) (nth (Z.to_nat i) w' 0)).
+Proof.
+  induction w as [|x w IH]; intros [|y w'] H; cbn [ascii_simb_list] in H; try discriminate.
+  - split; [reflexivity|]. unfold zlen. cbn. lia.
+  - apply andb_true_iff in H. destruct H as [Hxy Hr]. destruct (IH _ Hr) as [Hl Hs].
+    split; [cbn; lia|]. intros i Hi. unfold zlen in *. cbn [length] in Hi.
+    destruct (Z.eq_dec i 0) as [->|Hn].
+    + cbn. unfold ascii_sim, in_rng in *. lia.
+    + replace (Z.to_nat i) with (S (Z.to_nat (i - 1))) by lia. cbn [nth]. apply Hs. lia.
+Qed.
+
+Lemma ex_case_variant_b w w' : ascii_simb_list w w' = true ->
+  case_variant ascii_sim (ex_env w) (ex_env w').
+Proof. intros H. destruct (ascii_simb_list_ok _ _ H). apply ex_case_variant; assumption. Qed.
+
+Lemma ascii_sim_ok : sim_ok ascii_sim.
+Proof. split; [exact ascii_sim_refl | exact ascii_sim_sym]. Qed.
+
+Lemma ex_closedb_closed w t :
+  ci_closedb ascii_pairs (ex_env w) t = true -> ci_closed ascii_sim (ex_env w) t.
+Proof. apply (ci_closedb_iff ascii_sim ascii_pairs ascii_sim_sym ascii_pairs_sim ascii_sim_pairs). Qed.
